@@ -135,6 +135,15 @@ Step(st, ev) ==
          IF Len(b) # W THEN Panic(st)
          ELSE IF OS2IP(b) \prec N THEN Ok(SetSc(st, ev.s, OS2IP(b))) ELSE Err(st)  \* receiver untouched
     [] ev.op = "sc.Bytes" -> Ok(SetBuf(st, ev.b, st.sc[ev.s]))
+    (* ---- signature wire formats as free functions: parsers return fresh scalars (or nothing), builders a fresh slice ---- *)
+    [] ev.op \in {"sig.ParseCompact", "sig.ParseCompactRec", "sig.ParseDER"} ->
+         LET b == st.buf[ev.b]
+             p == CASE ev.op = "sig.ParseCompact" -> ParseCompact(b, FALSE) [] ev.op = "sig.ParseCompactRec" -> ParseCompact(b, TRUE) [] OTHER -> ParseDerSig(b)
+         IN  IF p[1] = "ok" THEN OkR(SetSc(SetSc(st, ev.s, p[2]), ev.t, p[3]), IF ev.op = "sig.ParseCompactRec" THEN p[4] ELSE -1)
+             ELSE Err(st)                                                         \* no scalar is returned, whichever half was at fault
+    [] ev.op = "sig.BuildCompact" -> Ok(SetBuf(st, ev.b, BuildCompact(ScOf(st, ev.s), ScOf(st, ev.t))))
+    [] ev.op = "sig.BuildCompactRec" -> Ok(SetBuf(st, ev.b, BuildCompactRec(ScOf(st, ev.s), ScOf(st, ev.t), ev.c)))
+    [] ev.op = "sig.BuildDER" -> Ok(SetBuf(st, ev.b, BuildDerSig(ScOf(st, ev.s), ScOf(st, ev.t))))
     (* ---- key objects ---- *)
     [] ev.op = "key.NewPrivate" ->
          LET b == st.buf[ev.b] IN
